@@ -122,6 +122,34 @@ def special_cases(tier):
     return [wrap, skip]
 
 
+def enumerated_cases(tier):
+    """Exhaustive small domain: 1 or 2 commands, window 1..2, tries 1..3 (1..2 for two commands), every
+    assignment of {ok, request lost, reply one tick late, duplicated, busy, fatal} to the possible
+    transmissions.  quick: the part with at most 2 possible transmissions."""
+    import itertools
+    T = 4
+    kinds = [None,                                               # ok after one tick
+             {"lost": True, "replies": []},
+             {"lost": False, "replies": [[T + 1, None]]},        # arrives just after the retransmission
+             {"lost": False, "replies": [[1, None], [T + 2, None]]},
+             {"lost": False, "replies": [[1, 0x8d]]},
+             {"lost": False, "replies": [[2, 0x88]]}]
+    out, idx = [], 1000000
+    for ncmd, tries_range in ((1, (1, 2, 3)), (2, (1, 2))):
+        for tries in tries_range:
+            if tier == "quick" and ncmd * tries > 2:
+                continue
+            for window in ((1,) if ncmd == 1 else (1, 2)):
+                for combo in itertools.product(range(len(kinds)), repeat=ncmd * tries):
+                    plan = dict((str(k), kinds[j]) for k, j in enumerate(combo) if kinds[j] is not None)
+                    out.append({"n_tries": tries, "timeout": T, "advance_seq": 65535, "mood": "enumerated", "idx": idx,
+                                "buffer_size": 256,
+                                "policy": {"kind": "sim", "plan": plan, "exact": [], "max_selects": 200},
+                                "ops": [{"op": "burst", "window": window, "cmds": [[i, i] for i in range(ncmd)]}]})
+                    idx += 1
+    return out
+
+
 # ------------------------------------------------------------------------------------------ Coq literals
 def coq_dg(d):
     return "(Dg %s %s %s)" % (zlit(d[0]), zlit(d[1]), zlit(d[2]))
@@ -433,15 +461,19 @@ def run(chk, args):
         cases = [f["replay"]["case"] for f in j.get("failures", []) + j.get("no_longer_checks", [])
                  if "case" in f.get("replay", {})]
     else:
-        n = 1500 if chk.tier == "quick" else 60000
-        cases = special_cases(chk.tier) + [gen_case(chk.rng, i) for i in range(n)]
+        n = 1500 if chk.tier == "quick" else 40000
+        cases = special_cases(chk.tier) + enumerated_cases(chk.tier) + [gen_case(chk.rng, i) for i in range(n)]
     corpus = os.path.join(lib.VERIF, "corpus", "C06.json")
     if os.path.exists(corpus):
         cases = json.load(open(corpus)) + cases
     big = [c for c in cases if c["idx"] < 0]
     small = [c for c in cases if c["idx"] >= 0]
+    import time
+    t0 = time.time()
     chunks = [[c] for c in big] + [small[i:i + 125] for i in range(0, len(small), 125)]
     outs = [o for part in chk.impl_parallel("impl_c06.py", chunks) for o in part]
+    t_impl = time.time() - t0
+    t0 = time.time()
     outs = outs[len(big):] + outs[:len(big)]                    # small cases are examined (and reported) first
     cases = small + big
     exprs, idx = [], []
@@ -469,6 +501,8 @@ def run(chk, args):
     mid = cases[min(len(cases) - 1, 5)]
     chk.sample(dict(case=mid, implementation=[dict(outcome=b["outcome"], trace=b["trace"][:30])
                                               for b in outs[min(len(cases) - 1, 5)]["bursts"]]))
+    t_oracle = time.time() - t0
+    t0 = time.time()
     if chk.model_ok:
         try:
             header = ("From Coq Require Import ZArith List. Import ListNotations. Open Scope Z_scope.\n"
@@ -508,12 +542,16 @@ def run(chk, args):
                            "timeouts, receives, callbacks, exception)" % (len(idx), chk.traces_validated), True)
         except RuntimeError as e:
             chk.oblige("correspondence:model-evaluates", False, str(e))
+    chk.coverage["phases_s"] = dict(implementation=round(t_impl, 1), oracle_and_literals=round(t_oracle, 1),
+                                    model_in_coq=round(time.time() - t0, 1))
     chk.coverage["rule"] = (
         "random connections: 1-3 calls (send_scp_burst with 0-12 commands, window 1-8; send_scp), tries 1-5, timeout "
         "4/10/25 ticks, per-command extra timeouts, sequence counter pre-advanced (often to the wrap), idle gaps; "
         "80% fault simulations (per-transmission outcome ok / request lost / reply lost / delayed 1-3 timeouts / "
         "duplicated / retryable rc / fatal rc, select waking exactly at or one tick after the deadline, late replies "
         "crossing into the next call), 20% raw event scripts (arbitrary duplication and reordering, clock steps "
-        "including backwards); plus two 65 537-command schedules that take the sequence counter round. "
+        "including backwards); plus two 65 537-command schedules that take the sequence counter round (one with copies "
+        "of a reply arriving after 2^k commands, k = 4..16) and an exhaustive enumeration (1-2 commands, window 1-2, "
+        "tries <= 3, six outcomes per possible transmission; the quick tier takes its part with <= 2 transmissions). "
         "non-trivial = a call with >= 2 commands and a retransmission, an ignored datagram or an exception; "
         "distinct by hash of the whole case")
